@@ -573,11 +573,11 @@ def gen_harness(model, types, header_path, ws):
     # callback stores at most `capacity` items in order and says "stop" when full; memcpy bounds are CBMC's own checks
     if model["id"] == "obj_box_arc" and "buf_iter_next" in open(header_path).read():
         o.append("""static void test_helper_buf_iter(void) {
-    ND(uint32_t, b0); ND(uint32_t, b1); ND(uint32_t, b2);
-    uint32_t buf[3] = { b0, b1, b2 };
-    ND(size_t, n); ASSUME(n <= 3);
-    struct BufferIterator it = { (const char *) buf, n, 0, sizeof(uint32_t) };
-    for (size_t k = 0; k < n; k++) {
+    ND(uint32_t, hb_b0); ND(uint32_t, hb_b1); ND(uint32_t, hb_b2);
+    uint32_t buf[3] = { hb_b0, hb_b1, hb_b2 };
+    ND(size_t, hb_n); ASSUME(hb_n <= 3);
+    struct BufferIterator it = { (const char *) buf, hb_n, 0, sizeof(uint32_t) };
+    for (size_t k = 0; k < hb_n; k++) {
         uint32_t out = 0;
         CHECK(buf_iter_next(&it, &out) == 0, "buffer iterator: 0 for an item");
         CHECK(out == buf[k], "buffer iterator: items in order");
@@ -588,18 +588,18 @@ def gen_harness(model, types, header_path, ws):
 }
 static void test_helper_collect_static(void) {
     uint32_t store[3] = { 0, 0, 0 };
-    ND(size_t, cap); ASSUME(cap <= 3);
-    ND(size_t, m); ASSUME(m <= 4);
-    struct CollectBase cb = { (char *) store, cap, 0 };
+    ND(size_t, hc_cap); ASSUME(hc_cap <= 3);
+    ND(size_t, hc_m); ASSUME(hc_m <= 4);
+    struct CollectBase cb = { (char *) store, hc_cap, 0 };
     size_t fed = 0;
-    for (size_t k = 0; k < m; k++) {
+    for (size_t k = 0; k < hc_m; k++) {
         uint32_t v = 100 + (uint32_t) k;
         bool more = cb_collect_static_base(&cb, sizeof(uint32_t), &v);
         fed++;
-        CHECK(more == (cb.size < cap), "static collect: continues exactly while there is room");
+        CHECK(more == (cb.size < hc_cap), "static collect: continues exactly while there is room");
         if (!more) break;
     }
-    CHECK(cb.size == (fed < cap ? fed : cap), "static collect: stores min(offered, capacity) items");
+    CHECK(cb.size == (fed < hc_cap ? fed : hc_cap), "static collect: stores min(offered, capacity) items");
     for (size_t k = 0; k < cb.size; k++) CHECK(store[k] == 100 + k, "static collect: items in order");
 }
 """)
